@@ -13,25 +13,25 @@ TAB = "exhaustive enumeration of a bounded configuration x structure table on th
 
 CHECKS = {
     "C01": dict(engine="table+seq", technique="bounded exhaustive enumeration of networks x outputs x contraction routes + BFS over partial-contraction histories, vs einsum reference", design="3/C01",
-                text="Every hypergraph network with <= 3 (quick) / 4 (thorough) tensors over a 4-label alphabet (dims incl. 1, hyper labels, scalars), every output-label subset in two orders, three stored exponents, is evaluated through every public contraction route and compared with one np.einsum; partial contractions are explored as histories and must keep the denoted value. Exhaustive within those bounds, silent about larger networks and other data.",
+                text="Every hypergraph network with <= 3 (quick) / 4 (thorough) tensors over a 4-label alphabet (dims incl. 1, hyper labels, scalars), every output-label subset in two orders, three stored exponents, is evaluated through every public contraction route and compared with one np.einsum; partial contractions are explored as histories and must keep the denoted value. Exhaustive within those bounds, silent about larger networks and other data. Also: values scaled to ~1e-15 / ~1e+15, overlap for every operand-type pair, input purity of every route.",
                 note="trusted: numpy einsum as the denotation; data from the fixed alphabet; cotengra path finders assumed deterministic"),
     "C02": dict(engine="seq", technique="explicit-state BFS over mutation histories (depth-bounded), fresh-scan invariant in every state", design="3/C02",
                 text="All histories up to depth 2 (quick) / 3 (thorough) of ~75 public mutation event kinds on five initial worlds (shared tensors, virtual views, repeated labels, colliding inner labels, hyper labels) are executed on real networks; after every transition every live network's ind_map/tag_map/inner/outer/owners/selection results are compared with a fresh scan, and combinations are checked to keep distinct bonds distinct and outer names unchanged. quimb.utils.oset is explored exhaustively over 3 keys against a list model.",
                 note="trusted: the fresh scan; assumes data never influences bookkeeping; canonical-key merging argued in DESIGN 3/C02"),
     "C03": dict(engine="table", technique="reflection-driven exhaustive table: every (f, f_) pair x receiver x axis permutation x insertion order, purity by read-only arrays + fingerprints", design="3/C03",
-                text="Every public plain/in-place method pair discovered by reflection on the tensor and network classes is run on small fixed receivers with a finite argument domain: the plain spelling must leave receiver and arguments bit-identical (arrays made read-only), agree with the in-place spelling on a copy, and be invariant under every axis permutation of every tensor involved and every insertion order.",
+                text="Every public plain/in-place method pair discovered by reflection on the tensor and network classes is run on small fixed receivers with a finite argument domain: the plain spelling must leave receiver and arguments bit-identical (arrays made read-only), agree with the in-place spelling on a copy, and be invariant under every axis permutation of every tensor involved and every insertion order (incl. mixed isel selectors and all simplifiers with default outputs on open chains of structured tensors).",
                 note="trusted: dense labelled comparison; argument domains are hand-written finite lists; pairs without a domain are reported, not checked"),
     "C04": dict(engine="seq+table", technique="explicit-state BFS over compositions of representation-only rewrites, dense-value invariant after every transition; exhaustive 0/1 masks for the structure kernels", design="3/C04",
                 text="From every small connected graph network (trees, loops, multibond, hyper-index, structured tensors) every composition up to depth 2 (quick) / 3 (thorough) of gauging, canonisation, norm-equalisation, fusing, squeezing, simplification and untruncated compression events is executed; the dense value over the same outer labels times 10^exponent must be unchanged after every step and promised forms (isometry, bond not larger, equal norms) must hold. Structure-detection kernels are checked on all 0/1 masks up to 3x3 / 2x2x2.",
                 note="trusted: dense contraction by einsum reference; bounded to <= 4 tensors"),
     "C05": dict(engine="table", technique="exhaustive method x form x cutoff-mode x truncation-grid x shape x dtype x spectrum table vs numpy SVD reference rule", design="3/C05",
-                text="The full decomposition table read from quimb's own registries is run on matrices with prescribed singular values: reconstruction when untruncated, isometry of factors reported isometric, kept rank = reference rule, Eckart-Young optimality, reported error = actual distance, renormalisation, and agreement of accelerated (numba) and generic implementations.",
+                text="The full decomposition table read from quimb's own registries is run on matrices with prescribed singular values: reconstruction when untruncated, isometry of factors reported isometric, kept rank = reference rule, Eckart-Young optimality, reported error = actual distance, renormalisation, and agreement of accelerated (numba) and generic implementations; exactly zero inputs and cutoffs that reject every value must still keep one value and stay finite.",
                 note="trusted: numpy.linalg.svd; thresholds asserted only with a 10x margin; matrices <= 4x4"),
     "C06": dict(engine="table", technique="exhaustive geometry x operator x ordered-where x application-mode table vs dense embed reference, incl. second gate from a non-initial state", design="3/C06",
-                text="Every application mode accepted for each geometry (open/cyclic MPS, MPO, PEPS, tree/ring, dense) x every ordered site tuple x generic non-symmetric operators (matrix/tensor, transposed/adjoint) is applied without truncation and compared with the dense embedded operator times the dense state; outer labels, site tags and class are checked to be preserved.",
+                text="Every application mode accepted for each geometry (open/cyclic MPS, MPO, PEPS, tree/ring, dense) x every ordered site tuple x generic non-symmetric operators (matrix/tensor, transposed/adjoint) is applied without truncation and compared with the dense embedded operator times the dense state; outer labels, site tags and class are checked to be preserved; the full transpose x dagger flag product, gate objects re-used for a second application, mixed physical dimensions.",
                 note="trusted: numpy tensordot embedding; <= 6 sites, d <= 3"),
     "C07": dict(engine="seq+table", technique="explicit-state BFS over interleavings of gates, parameter updates, copies and queries on every simulator class vs a numpy statevector reference; exhaustive gate x placement table", design="3/C07",
-                text="All interleavings up to a bounded number of mutations (with queries in between) on N=3 (quick) / 4 qubits for each circuit class are executed; every query after every step is compared with a numpy statevector built from the recorded gates, so a cache that survives a mutation is seen; every registered gate is checked unitary on a parameter grid and against textbook matrices, on every ordered placement.",
+                text="All interleavings up to a bounded number of mutations (with queries in between) on N=3 (quick) / 4 qubits for each circuit class are executed; every query after every step is compared with a numpy statevector built from the recorded gates, so a cache that survives a mutation is seen; every registered gate is checked unitary on a parameter grid and against textbook matrices, on every ordered placement. Both circuits of a copy() pair stay alive and are re-read after every event; one Gate object shared by two circuits; recorded gate lists compared with the gates applied.",
                 note="trusted: hand-written gate matrices and numpy statevector simulator"),
     "C08": dict(engine="seq", technique="explicit-state BFS over MPS operation histories threading one info record, isometry + dense-state invariants after every transition", design="3/C08",
                 text="All histories up to depth 2-3 (quick) / 3-4 (thorough) of canonicalise/shift/gate (every MPS mode)/swap/sub-MPO/compress-site/measure/query events on L=4 (5) states thread one info dict; after every transition the recorded centre range is checked against numpy isometry tests of every site, flagged tensors are checked isometric, and every returned quantity is compared with its dense-state definition.",
@@ -40,19 +40,19 @@ CHECKS = {
                 text="Round trips of every named generator, all arithmetic/apply/trace/partial-trace routes and every registered 1D compression method x sweep direction x input kind are run for L <= 4-5 and compared with dense numpy results; bond caps, canonical form and the discarded-weight error bound are asserted.",
                 note="trusted: dense numpy; randomised methods with fixed seeds on exactly low-rank inputs"),
     "C10": dict(engine="table", technique="exhaustive Hamiltonian-family x DMRG-configuration table with per-update energy monitor vs exact diagonalisation", design="3/C10",
-                text="All subsets (size <= 3) of an 8-term alphabet incl. genuinely complex terms x L x S x DMRG1/2 x bond schedules x sweep sequences: reported energy = <state|H|state>, state normalised, energy >= E0, monotone untruncated updates, bond cap respected, ED agreement when the cap admits the exact state.",
+                text="All subsets (size <= 3) of an 8-term alphabet incl. genuinely complex terms x L x S x DMRG1/2 x bond schedules x sweep sequences: reported energy = <state|H|state>, state normalised, energy >= E0, monotone untruncated updates, bond cap respected, ED agreement when the cap admits the exact state; the documented dmrg.opts; multi-solve histories on one object with the monitor carried across solve() calls.",
                 note="trusted: numpy eigh on the dense Hamiltonian built by an independent Kronecker-sum reference"),
     "C11": dict(engine="seq+table", technique="explicit-state enumeration of update-time histories x configuration table vs exact reference Trotter product", design="3/C11",
-                text="LocalHam objects are compared term-by-term and gate-by-gate with numpy/scipy; every TEBD history (sequences of target times incl. non-multiples of dt and repeats) over L x cyclic x order x dt x imag x t0 must land exactly on T and reproduce the reference product formula to 1e-9; convergence order is checked on a ladder of step sizes.",
+                text="LocalHam objects are compared term-by-term and gate-by-gate with numpy/scipy; every TEBD history (sequences of target times incl. non-multiples of dt and repeats) over L x cyclic x order x dt x imag x t0 must land exactly on T and reproduce the reference product formula to 1e-9; convergence order is checked on a ladder of step sizes; arbitrary-geometry simple update (sequential / parallel, every ordering of small graphs, 3+ layer colourings) vs the dense product of the local exponentials; constructor input purity.",
                 note="trusted: reference product formula built from the library's schedule coefficients + independent expm"),
     "C12": dict(engine="table", technique="exhaustive lattice x direction-sequence x mode x option table; untruncated value vs exact contraction, bond-cap invariant at every hand-over", design="3/C12",
-                text="Every boundary-contraction mode x direction sequence x option on 2D (<= 3x3 quick, 4x4 thorough) and 3D (2x2x2) lattices, every contraction tree of small arbitrary graphs, HOTRG/CTMRG, and all row/column/plaquette environments are run: exact value when untruncated, all compressed bonds <= chi when capped, environments close to the full value.",
+                text="Every boundary-contraction mode x direction sequence x option on 2D (<= 3x3 quick, 4x4 thorough) and 3D (2x2x2) lattices, every contraction tree of small arbitrary graphs, HOTRG/CTMRG, and all row/column/plaquette environments are run: exact value when untruncated, all compressed bonds <= chi when capped, environments close to the full value; explicit max_bond vs the chi stored in a contraction tree; total pair bond on periodic boundary lines; every caller-owned option dict fingerprinted and every entry called twice with the same option objects.",
                 note="trusted: exact contraction of the same network"),
     "C13": dict(engine="table", technique="exhaustive state x operator x ordered-where x route table vs dense expectation / partial trace", design="3/C13",
-                text="Every route to a reduced density matrix or local expectation (exact, cluster, loop expansions, 1D canonical/environment, 2D plaquette environments) on un-normalised small states with generic non-symmetric operators and every ordered site tuple is compared with the dense value; RDMs checked Hermitian, normalised, ordered.",
+                text="Every route to a reduced density matrix or local expectation (exact, cluster, loop expansions, 1D canonical/environment, 2D plaquette environments) on un-normalised small states with generic non-symmetric operators and every ordered site tuple is compared with the dense value; RDMs checked Hermitian, normalised, ordered; two- and three-step histories through one info / environment container (changed operator, changed cluster lists); equalize_norms x normalized on lattices where both plaquette routines run.",
                 note="trusted: dense numpy state; <= 8 sites"),
     "C14": dict(engine="table", technique="exhaustive tree x flavour x schedule (all tensor insertion orders) table vs exact contraction and exact marginals", design="3/C14",
-                text="Every unlabelled tree on <= 5-6 nodes, forests and hyper-trees x every BP flavour x update schedule (all n! insertion orders, sequential/parallel, damping) must converge to the exact value/norm and exact marginals; BP gauging/compression without truncation must keep the tensor.",
+                text="Every unlabelled tree on <= 5-6 nodes, forests and hyper-trees x every BP flavour x update schedule (all n! insertion orders, sequential/parallel, damping) must converge to the exact value/norm and exact marginals; BP gauging/compression without truncation must keep the tensor (graded spectra, bond sizes unchanged); structured leaves whose message sums to exactly zero; no non-finite message after run().",
                 note="trusted: exact contraction; loopy graphs outside the property"),
     "C15": dict(engine="table", technique="bounded-exhaustive enumeration of dimension lists x ordered subsets x formats x all ownership ranges vs explicit numpy kron/transpose/einsum", design="3/C15",
                 text="All dims tuples over {1,2,3} up to length 3-4, every ordered index subset, dense and every sparse format, ket/bra/operator: ikron, pkron, permute, partial_trace, partial_transpose vs numpy; every ownership range 0<=ri<rf<=D of kron and the Hamiltonian builders equals the row slice of the full object.",
@@ -61,13 +61,13 @@ CHECKS = {
                 text="The work-partition arithmetic is checked on a complete grid (size x block size x thread count); every threaded kernel is run through a deterministic executor that executes the submitted tasks in every order (all n! for <= 4 tasks, rotations above), records per-task write sets (disjoint, covering, inputs untouched) and compares bit-for-bit with the serial numpy result.",
                 note="trusted: the executor seam (monkeypatch of quimb.core.get_thread_pool / cf.wait); preemption inside nogil kernels covered by the non-interference argument"),
     "C17": dict(engine="table", technique="exhaustive operator-kind x size x k x which x sigma x backend x representation table vs dense numpy spectrum", design="3/C17",
-                text="Every selection rule x backend x representation x k on Hermitian/general/degenerate/block-structured operators on both sides of the backend thresholds: residuals, orthonormality, ordering, exact selected subset; svd/expm/expm_multiply/sqrtm/norm identities; autoblock = direct.",
+                text="Every selection rule x backend x representation x k on Hermitian/general/degenerate/block-structured operators on both sides of the backend thresholds: residuals, orthonormality, ordering, exact selected subset; svd/expm/expm_multiply/sqrtm/norm identities; autoblock = direct; exact-zero / exact-eigenvalue targets in every spelling; every dense input in C / Fortran / transposed / strided layout; bitwise input purity and repeat-call equality on every evaluation.",
                 note="trusted: numpy.linalg.eigh/eig/svd and an independent Taylor expm"),
     "C18": dict(engine="seq", technique="explicit-state enumeration of update-time histories over the method x state-kind x Hamiltonian-representation table vs eigh propagator", design="3/C18",
                 text="Every method x ket/pure/mixed density operator x Hamiltonian representation x t0, driven through every sequence (depth <= 3) of update times incl. repeats and backwards steps: state and time equal the reference propagator, invariants conserved, unsupported combinations must be rejected, callbacks see reference states.",
                 note="trusted: numpy eigh propagator; midpoint product for non-commuting H(t)"),
     "C19": dict(engine="table", technique="exhaustive rank enumeration for every (nsites, order, symmetry, sector) + term-list x representation table vs explicit Kronecker-sum reference", design="3/C19",
-                text="Every rank of every sector for nsites <= 4-6 is unranked/ranked and compared with brute-force enumeration; every term list over the operator alphabet (locality <= 3, complex coefficients, repeated sites) is built in every representation, before and after Jordan-Wigner/Pauli rewrites and in every sector, and compared with an independent Kronecker reference; MPO and matrix-side builders agree.",
+                text="Every rank of every sector for nsites <= 4-6 is unranked/ranked and compared with brute-force enumeration; every term list over the operator alphabet (locality <= 3, complex coefficients, repeated sites) is built in every representation, before and after Jordan-Wigner/Pauli rewrites and in every sector, and compared with an independent Kronecker reference; MPO and matrix-side builders agree; every accepted spelling of a sector denotes the same sector.",
                 note="trusted: textbook operator matrices and numpy kron"),
     "C20": dict(engine="table", technique="bounded-exhaustive dims x state-kind x subsystem-choice x representation table vs textbook definitions in numpy", design="3/C20",
                 text="Every measure on every dims list (D <= 16), state kind, ordered subsystem choice, dense/sparse and ket/projector representation is compared with its textbook definition in numpy and checked for invariances, bounds and pure-state identities.",
